@@ -92,4 +92,25 @@ func init() {
 		Required:  []string{"c09.contended_acquire", "c09.preempt_point_inside_critical_section", "c09.oom_under_contention", "c09.double_free_under_contention", "c09.unmanaged_free_under_contention", "c09.free_storm_run", "c09.inline_linearizability_ok"},
 		PostCheck: postC09,
 	})
+
+	// ------------------------------------------------------------------ VMM (C04 C05 C06 C07)
+	vmmFiles := []overlayFile{
+		simkitFor("mm/vmm", "vmm"),
+		{Src: "engines/vmm/machine.go.txt", Dst: "mm/vmm/zz_verif_machine_test.go", Pkg: "vmm"},
+		{Src: "engines/vmm/c04.go.txt", Dst: "mm/vmm/zz_verif_c04_test.go", Pkg: "vmm"},
+	}
+	vmmAnchors := []string{"kernel/mm/vmm/map.go", "kernel/mm/vmm/pdt.go", "kernel/mm/vmm/vmm.go", "kernel/mm/vmm/addr_space.go", "kernel/mm/vmm/fault_amd64.go", "kernel/mm/vmm/vmm_constants_amd64.go", "kernel/mm/page.go", "kernel/multiboot/multiboot.go"}
+	vmmReal := []string{"vmm.Map/Unmap/Translate/MapRegion/IdentityMapRegion/MapTemporary", "PageDirectoryTable.Init/Map/Unmap/Activate", "walk/pteForAddress over the recursive mapping", "vmm.Init, setupPDTForKernel, reserveZeroedFrame, installFaultHandlers", "pageFaultHandler / generalProtectionFaultHandler as registered by the kernel", "EarlyReserveRegion", "multiboot.VisitElfSections decoding a generated ELF-sections tag"}
+	vmmStub := []string{"physical memory = fixed-address mmap arena, frame = host address >> 12", "MMU address path = software walk from a simulated CR3 (ptePtrFn)", "nextAddrFn = table the just-written entry points to", "TLB = recorded invalidations", "frame allocator = seeded order, junk-filled frames, injectable failure", "data path of temporary mappings goes to the identity page of the frame (mapTemporaryFn/unmapFn shim around the real functions)", "the CPU raising page faults (harness)", "virtual window = second host arena for faulting pages"}
+	addEngine(&engineSpec{Name: "vmm", PkgDir: "mm/vmm", Files: vmmFiles, Anchors: vmmAnchors, Real: vmmReal, Stub: vmmStub})
+	addProp(&propSpec{
+		ID: "C04", Engine: "vmm", Level: "fault_enumeration",
+		Subs: []subCheck{
+			{Name: "C04", QuickRuns: 30000, QuickMs: 40000, ThoroughRuns: 3000000, ThoroughMs: 700000},
+			{Name: "C04F", QuickRuns: 6000, QuickMs: 30000, ThoroughRuns: 600000, ThoroughMs: 500000},
+		},
+		Rule: "C04: one evaluation = one seeded history (up to 40 operations: Map, Unmap, Translate, MapRegion, IdentityMapRegion, MapTemporary, pdt.Map/Unmap on active and inactive spaces, Activate, new address spaces through the real pdt.Init, planted huge-page entries) over a pool of pages built to share or not share every table level, with seeded allocation/temporary-mapping failures; after every operation an independent walker compares every present leaf of every address space with the page->entry model, checks new levels, TLB invalidations, bit-for-bit preservation of the active space for inactive-space operations and Translate. C04F: a short fault-free history is executed, then re-executed once per (operation j, allocation k) failing exactly that allocation (systematic fault enumeration). Non-trivial = >= 4 operations and at least one mapping established or failure injected; distinct = hash of the operation sequence.",
+		Assume:   []string{"ideal MMU: no stale TLB entries, no paging-structure caches (the TLB is an oracle input: which pages were invalidated)", "the data path of temporary mappings is shimmed (identity page of the frame)", "the arithmetic computing the next table's virtual address from the entry's virtual address is not exercised (nextAddrFn ignores its argument)"},
+		Required: []string{"c04.new_levels_1", "c04.new_levels_2", "c04.new_levels_3", "c04.op_on_inactive_space", "c04.alloc_fail_in_map", "c04.alloc_fail_in_region", "c04.huge_page_error", "c04.new_space", "c04.activate", "c04.region_mapped", "c04f.fault_points_enumerated"},
+	})
 }
